@@ -80,10 +80,15 @@ CLAIMED = {
             "path. The pandas table algebra (add, get_num_*, calculate_error, confusion matrix) cannot carry symbolic values; it "
             "is executed on the real code at the solver-generated witness of every explored path (auxiliary, not a for-all "
             "claim) - stated in the evidence."),
+    "C16": ("4 C16", "load_all_datasets and the whole of dataset_utils' 3-D path are executed - together with the nuScenes "
+            "devkit methods they call (table lookup, get_sample_data, get_boxes, Box.translate/rotate, PredictHelper) - on "
+            "in-memory tables of <=3 samples x <=3 instances whose positions, sizes, point counts, ego translations and "
+            "timestamps are symbolic and whose rotations are exact; z3 decides on every path that frames, objects, labels, "
+            "sizes, counts, visibility, map/ego poses, the ego->map transform, the tracking history and the sensor transforms "
+            "equal the tables. Only reading the JSON files is replaced (environment stub); outside: file parsing, 2-D "
+            "datasets, raw sensor data."),
 }
 NA = {
-    "C16": "dataset loading goes through the nuScenes devkit and file I/O; a symbolic stand-in for the devkit would be the "
-           "specification itself (DESIGN.md section 4, C16)",
 }
 PENDING = "no solver-based check is committed for this property yet (harness under construction; DESIGN.md section 4)"
 
